@@ -87,6 +87,8 @@ def run(ctx):
         log = g.log(book=book, exact=True, days=2, max_entries=3, unusual=0.1)
         files = base_files(g, book, log)
         for path, args, sw in [(p_, a_, {}) for p_, a_ in CMDS] + VARIANTS:
+            if path == ['summary'] and log:
+                args = (log[0][0].strftime('%Y/%m/%d'),)          # a day the log has (the first one: the faults come after it)
             kind0 = ' '.join(path + [a for a in args if path == ['lint']])
             kind = kind0 + (' [' + '+'.join(sw) + ']' if sw else '')
             base = app(path, files, args=args, s=sw, kind=kind)
@@ -129,6 +131,8 @@ def run(ctx):
             broken = dict(files)
             broken[t] = b'\n'.join(lines[:at + 1] + [long_line] + lines[at + 1:])
             for path, args, sw in [(p_, a_, {}) for p_, a_ in CMDS + [(['stats'], ())]] + VARIANTS:
+                if path == ['summary'] and log:
+                    args = (log[0][0].strftime('%Y/%m/%d'),)
                 kind = ' '.join(path + [a for a in args if path == ['lint']])
                 if (kind in DB_ONLY and t != b'food.yaml') or (kind in LOG_ONLY and t != b'log.yaml'):
                     continue
